@@ -227,6 +227,56 @@ Aggr(ds, items, mode, names, having) ==
                        IF x \in gids THEN g[x] ELSE AggTermValue(items[item(x)].agg, GroupRows(ds, gids, g), ds)]
                     : g \in { h \in gs : keepG(h) } }]
 
+
+-----------------------------------------------------------------------------
+(* Joins (C04).  ops: sequence of [ds, alias]; using: set of names ({} = the common identifiers); body: sequence of  *)
+(* clauses applied to the VIRTUAL dataset of the join, whose non-key components that occur in several operands are   *)
+(* named alias#name.  At the end the alias# prefixes are removed.                                                    *)
+Missing == [missing |-> TRUE]
+IsMissing(r) == "missing" \in DOMAIN r
+\* a combination t (sequence of rows / Missing, one per operand so far) is compatible with row r of operand k
+Compat(ops, t, k, r) == \A j \in DOMAIN t : IsMissing(t[j]) \/
+                           \A i \in IdsOf(ops[j].ds) \cap IdsOf(ops[k].ds) : t[j][i] = r[i]
+RECURSIVE JoinCombos(_, _, _)
+JoinCombos(how, ops, k) ==
+    IF k = 0 THEN { <<>> }
+    ELSE LET prev == JoinCombos(how, ops, k - 1)
+             rows == ops[k].ds.rows
+         IN  IF how = "cross" THEN { Append(t, r) : t \in prev, r \in rows }
+             ELSE IF how = "inner" THEN { Append(p[1], p[2]) : p \in { q \in prev \X rows : Compat(ops, q[1], k, q[2]) } }
+             ELSE \* left: every combination survives; operands after the first are optional
+                  UNION { LET m == { r \in rows : Compat(ops, t, k, r) }
+                          IN  IF m = {} /\ k > 1 THEN { Append(t, Missing) } ELSE { Append(t, r) : r \in m }
+                          : t \in prev }
+\* full join: all operands have the same identifiers; one combination per key present anywhere
+FullCombos(ops) ==
+    LET ids == IdsOf(ops[1].ds)
+        keys == UNION { { Rst(r, ids) : r \in ops[k].ds.rows } : k \in DOMAIN ops }
+    IN  { [k \in DOMAIN ops |-> IF \E r \in ops[k].ds.rows : Rst(r, ids) = key
+                                THEN CHOOSE r \in ops[k].ds.rows : Rst(r, ids) = key ELSE Missing] : key \in keys }
+\* how often a component name occurs among the operands (identifiers count once unless cross join)
+Occurs(how, ops, n) == Cardinality({ k \in DOMAIN ops : n \in AllNames(ops[k].ds) })
+Shared(how, ops, n) == how # "cross" /\ \A k \in DOMAIN ops : n \in AllNames(ops[k].ds) => n \in IdsOf(ops[k].ds)
+VName(how, ops, k, n) == IF Occurs(how, ops, n) > 1 /\ ~Shared(how, ops, n) THEN ops[k].alias \o "#" \o n ELSE n
+JoinVirtual(how, ops) ==
+    LET combos == IF how = "full" THEN FullCombos(ops) ELSE JoinCombos(how, ops, Len(ops))
+        vcomps == UNION { { Comp(VName(how, ops, k, c.n), c.r, c.t) : c \in ops[k].ds.comps } : k \in DOMAIN ops }
+        \* where a virtual component takes its value from: the first operand (present in the combination) that owns it
+        owners(x) == { k \in DOMAIN ops : \E c \in ops[k].ds.comps : VName(how, ops, k, c.n) = x }
+        src(x, k) == (CHOOSE c \in ops[k].ds.comps : VName(how, ops, k, c.n) = x).n
+        val(t, x) == LET live == { k \in owners(x) : ~IsMissing(t[k]) }
+                     IN  IF live = {} THEN Null ELSE LET k == CHOOSE m \in live : \A q \in live : m <= q IN t[k][src(x, k)]
+    IN  [comps |-> vcomps, rows |-> { [x \in { c.n : c \in vcomps } |-> val(t, x)] : t \in combos }]
+\* remove alias# prefixes (names are sequences of characters: the part after the last #)
+RECURSIVE AfterHash(_)
+AfterHash(n) == IF \E i \in 1..Len(n) : SubSeq(n, i, i) = "#"
+                THEN AfterHash(SubSeq(n, (CHOOSE i \in 1..Len(n) : SubSeq(n, i, i) = "#") + 1, Len(n))) ELSE n
+StripAliases(ds) ==
+    LET new(n) == AfterHash(n)
+        old(x) == CHOOSE n \in AllNames(ds) : new(n) = x
+    IN  [comps |-> { Comp(new(c.n), c.r, c.t) : c \in ds.comps },
+         rows |-> { [x \in { new(n) : n \in AllNames(ds) } |-> r[old(x)]] : r \in ds.rows }]
+
 -----------------------------------------------------------------------------
 (* The evaluator *)
 RECURSIVE EvalD(_, _)
@@ -278,6 +328,14 @@ EvalD(t, env) ==
                            IF t.having = <<>> THEN <<>>
                            ELSE <<[g \in Groups(x, GroupIds(x, t.mode, Rng(t.group))) |->
                                      EvalH(t.having[1], GroupRows(x, GroupIds(x, t.mode, Rng(t.group)), g), x)]>>, env)
+      [] t.k = "join" ->
+            LET xs == [i \in DOMAIN t.ops |-> [ds |-> EvalD(t.ops[i].t, env), alias |-> t.ops[i].a]]
+            IN  IF \E i \in DOMAIN xs : IsE(xs[i].ds) THEN xs[CHOOSE i \in DOMAIN xs : IsE(xs[i].ds)].ds
+                ELSE LET RECURSIVE Body(_, _)
+                         Body(ds, i) == IF i > Len(t.body) \/ IsE(ds) THEN ds
+                                        ELSE Body(ApplyClause(t.body[i], ds, env), i + 1)
+                         res == Body(JoinVirtual(t.how, xs), 1)
+                     IN  IF IsE(res) THEN res ELSE StripAliases(res)
       [] t.k = "set" ->
             LET xs == [i \in DOMAIN t.ops |-> EvalD(t.ops[i], env)]
             IN  IF \E i \in DOMAIN xs : IsE(xs[i]) THEN xs[CHOOSE i \in DOMAIN xs : IsE(xs[i])]
